@@ -797,6 +797,7 @@ class WordLockRules(LockModel):
     def role_acquire(self, fn, mode, paths, res):
         g = {'S': 'SGuard', 'SIX': 'SIXGuard', 'X': 'XGuard'}[mode]
         n = 0
+        granting = []
         for p in paths:
             rg = self.ret_guard(p)
             rows, other = self.rows_of(fn, p)
@@ -813,9 +814,72 @@ class WordLockRules(LockModel):
             if self.expect_rows(fn, p, rows, other, ['ADM:' + mode], 'owning ' + g):
                 self.spec_check('ADM:' + mode, fn, p, rows[0])
                 self.acq_order(fn, p, rows[0])
+                granting.append((p, rows[0]))
                 n += 1
         if n == 0:
             self.sink.unsup('C01.ADM', short(fn['name']), fn['file'], 'no granting path found')
+        else:
+            self.admit_complete(fn, mode, granting)
+
+    def admit_complete(self, fn, mode, granting):
+        """C02.ADMIT (necessary for progress): on every word on which the mode is admissible under the compatibility matrix
+        some granting path of the blocking acquire is feasible - otherwise the request spins for ever on a state that no
+        other thread is obliged to change (a guard that is stronger than the admission predicate, e.g. an off-by-one
+        boundary that rejects one particular free word)"""
+        adm = {'S': lambda w: w.x == 0, 'SIX': lambda w: w.x == 0 and w.six == 0, 'X': lambda w: w.x == 0 and w.six == 0 and w.s == (0, 0)}[mode]
+        toks = None
+        conds_all = []
+        for p, e in granting:
+            conds_all += [c for c, _, _ in p.conds]
+        toks = self.ev.tokens_for(conds_all, extra=self.boundary_tokens(conds_all))
+        want = [c for c in self.ev.cells(toks) if adm(c)]
+        reached, undecided = set(), False
+        for p, e in granting:
+            r = RowEval(self.ev, p, e)
+            if not r.supported:
+                return
+            ws = word_symbols(p)
+            ws.add(r.pre_sym)
+            conds = [(c, o) for c, o, _ in p.conds if symbols(c) & ws] + list(r.extra_conds)
+            syms = sorted(ws & set().union(*[symbols(c) for c, _ in conds] + [{r.pre_sym}]))
+            try:
+                for env, und in feasible_envs(self.ev, syms, conds, toks, {r.pre_sym: adm}, limit=300000):
+                    reached.add(env[r.pre_sym].key())
+                    undecided = undecided or bool(und)
+            except OverflowError:
+                return
+        missing = [c for c in want if c.key() not in reached]
+        key = '%s admits every word on which %s is admissible' % (short(fn['name']), mode)
+        if not missing:
+            self.sink.ok('C02.ADMIT', key, fn['file'], '%d admissible abstract words, each reaches a granting path' % len(want))
+        else:
+            self.sink.bad('C02.ADMIT', key, '%s:%s' % (fn['file'], fn['line']),
+                          'no granting path is feasible on %s although the compatibility matrix admits %s there: the request spins for ever (%d of %d admissible words are rejected)'
+                          % (fmt_cell(missing[0]), mode, len(missing), len(want)))
+
+    def boundary_tokens(self, conds):
+        """rest-field values named by the constants the path compares words with (K, K - 1, K + 1 within the rest field): a guard
+        with an off-by-one boundary differs from the intended one exactly on such a value"""
+        out = []
+        rm = self.layout.RMASK
+        if not rm:
+            return out
+
+        def walk(v):
+            if not isinstance(v, tuple) or not v:
+                return
+            if v[0] == 'op' and len(v) == 5 and v[1] in ('<', '<=', '>', '>=', '==', '!='):
+                for k in (v[2], v[3]):
+                    if is_const(k) and 0 < k[1] <= rm:
+                        for kk in (k[1] - 1, k[1], k[1] + 1):
+                            if 0 < kk <= rm and ('c', kk) not in out:
+                                out.append(('c', kk))
+            for x in v:
+                if isinstance(x, tuple):
+                    walk(x)
+        for c in conds:
+            walk(c)
+        return out[:6]
 
     def role_try(self, fn, mode, paths, res):
         g = {'S': 'SGuard', 'SIX': 'SIXGuard', 'X': 'XGuard'}[mode]
